@@ -24,7 +24,7 @@ ASSUMPTIONS = [
     "the first point may be counted as k=0 or k=1: first emitted index accepted in [20, 2^16]; the draw log must show the start requested from exactly [20, 2^16)",
     "grid-level comparison skips reference points within 1e-9 of a cell mid-point",
 ]
-REQUIRED_COUNTERS = {"halton_points": 2000, "prime_tables": 20, "sampler_objects": 40, "split_sequences": 40, "rseq_points": 1000, "start_draws_logged": 40}
+REQUIRED_COUNTERS = {"halton_points": 1500, "prime_tables": 20, "sampler_objects": 40, "split_sequences": 40, "rseq_points": 400, "start_draws_logged": 40}
 SHARDS = {"quick": 8, "thorough": 16}
 
 
